@@ -150,10 +150,18 @@ def run(ctx):
     traces = wbcheck.replay(ctx, part, dict(hdr=(0, 0)), label="dump")
     traces += wbcheck.replay(ctx, sim, dict(hdr=(1, 1)), nhandles=2, label="simulate")
     # boundary profiles: the same abstract histories embedded at tile / column-block boundaries (no default fill)
-    bgen = wbcheck.cfg(depth=3, maxr=3, maxc=3, maxt=1, view=False, props=False, names=("T2",), defaults=("e",), counts=(1, 2),
-                       ops=["write", "addrow", "addcol", "delrow", "delcol", "save", "open"], rowargs=[1, 3], colargs=[1, 3])
+    bgen = wbcheck.cfg(depth=4, maxr=3, maxc=3, maxt=1, view=False, props=False, names=("T2",), defaults=("e",), counts=(1, 2),
+                       ops=["write", "addrow", "addcol", "delrow", "delcol", "save", "open"], rowargs=[1, 2, 3], colargs=[1, 2, 3])
     bhist, _ = wbcheck.histories_from_dump(ctx, bgen, "Gen_Workbook[boundary]")
-    bsel = rng.sample(bhist, min(len(bhist), 60 if q else 600))
+    # histories that write, save and open again are the ones a boundary can hurt: they come first
+    def round_trip(h):
+        ops = [o["op"] for o in h[0]]
+        return "write" in ops and "save" in ops and "open" in ops and ops.index("write") < ops.index("save") < len(ops) - 1 - ops[::-1].index("open")
+    brt = [h for h in bhist if round_trip(h)]
+    rest = [h for h in bhist if not round_trip(h)]
+    nb = 60 if q else 600
+    bsel = rng.sample(brt, min(len(brt), nb * 2 // 3))
+    bsel += rng.sample(rest, min(len(rest), nb - len(bsel)))
     btraces = []
     for (ro, co) in ((254, 0), (0, 254)) if q else ((254, 0), (255, 0), (0, 254), (0, 255), (510, 0), (254, 254)):
         btraces += wbcheck.replay(ctx, bsel, dict(row_off=ro, col_off=co, hdr=(1, 1)), label="boundary-%d-%d" % (ro, co))
